@@ -185,7 +185,22 @@ def host_cases(draw, tier):
         case['b'] = arith.operand_picks(draw, draw(width), allow_repeat=True)
     else:
         case['mode'] = draw(st.sampled_from(SQ_MODES))
-        case['a'] = arith.operand_picks(draw, draw(st.one_of(st.integers(1, 6), st.integers(1, 6), st.integers(7, 20))), allow_repeat=True)
+        # (host operands keep the table small: now and then numbers wide enough for the split path of the default squarer)
+        case['a'] = arith.operand_picks(draw, draw(st.one_of(st.integers(1, 6), st.integers(1, 6), st.integers(7, 20),
+                                                             st.sampled_from([48, 50, 51, 55]))), allow_repeat=True)
+    deep = (kind == 'mul' and case['mode'].startswith('KARATSUBA') and max(len(case['a']['idx']), len(case['b']['idx'])) >= 18) or \
+        (kind == 'sq' and len(case['a']['idx']) >= 48)
+    if deep and draw(st.booleans()) and all(g[0] != '' for g in host['gates']):
+        # recursion levels hand the caller's own labels on to helper adders: one operand gate carries the empty label
+        k = draw(st.integers(0, len(host['gates']) - 1))
+        old = host['gates'][k][0]
+        r = lambda x: '' if x == old else x
+        case['host'] = dict(host, inputs=[r(x) for x in host['inputs']], outputs=[r(x) for x in host['outputs']],
+                            gates=[[r(l), t, [r(o) for o in ops]] for l, t, ops in host['gates']])
+        for key in ('a', 'b'):
+            if key in case:
+                pos = draw(st.integers(0, len(case[key]['idx']) - 1))
+                case[key]['idx'][pos] = k
     return case
 
 
